@@ -24,8 +24,8 @@ CODES = ['1;96', '36', '1;94', '95', '2;35', '93', '1;33', '35', '1;37', '1;92',
 
 def plan(tier, seed):
     if tier == 'quick':
-        return [{'n': 45} for _ in range(14)] + [{'mode': 'proc', 'n': 3} for _ in range(2)]
-    return [{'n': 350} for _ in range(56)] + [{'mode': 'proc', 'n': 40} for _ in range(8)]
+        return [{'n': 45} for _ in range(12)] + [{'mode': 'proc', 'n': 3} for _ in range(2)] + [{'mode': 'gdb', 'n': 25, 'gdb_shim': True} for _ in range(2)]
+    return [{'n': 350} for _ in range(52)] + [{'mode': 'proc', 'n': 40} for _ in range(8)] + [{'mode': 'gdb', 'n': 250, 'gdb_shim': True} for _ in range(4)]
 
 
 def matcher_texts(rng, st):
@@ -274,7 +274,65 @@ def run_proc(ctx, spec):
         shutil.rmtree(d, ignore_errors=True)
 
 
+def run_gdb(ctx, spec):
+    """GDB mode prints things the other modes never do (halt notices, the warning about a message arriving on another
+    thread, command output through gdb.write): the same session with colour on and off"""
+    import random
+    from .. import gdbsim
+    env.setup(spec)
+    cands = wlxml.shipped(env.REPO)
+    rng = ctx.rng
+    for i in range(spec['n']):
+        k = rng.randint(1, 3)
+        st = streams.build(rng, cands, k=k, n_each=(10, 40), tagged=True)
+        ms = matcher_texts(rng, st)
+        stop = rng.choice([None, rng.choice(ms), '.' + rng.choice(st['entries'])['rec']['name']])
+        if stop in ('*', '!'):
+            stop = None
+        threads = [rng.choice([1, 1, 2, 3]) for _ in st['entries']]
+        cmds = {rng.randrange(len(st['entries'])): rng.choice(gen_commands(rng, st, 3)) for _ in range(rng.randint(0, 4))}
+        seed = rng.getrandbits(32)
+        outs = {}
+        try:
+            for color in ((False, True) if rng.random() < 0.5 else (True, False)):
+                gs = gdbsim.GdbSession(stop_text=stop, color=color, verbose=False)
+                r2 = random.Random(seed)
+                for ci in st['names']:
+                    gs.new_connection(ci, st['sides'][ci])
+                for j, e in enumerate(st['entries']):
+                    if j in cmds:
+                        gs.sim.command('wl', cmds[j])
+                    gs.deliver(gs.event_for(e['ci'], e['rec'], r2, threads[j]))
+                outs[color] = gs.written_since(0)
+        except Exception as e:
+            import traceback
+            ctx.violation('session-exception', 'GDB-mode session: %s: %r' % (type(e).__name__, e), {'gdb_lines': [x['line'] for x in st['entries']]}, tb=traceback.format_exc()[-1200:])
+            continue
+        ctx.ev()
+        ctx.count('gdb_sessions')
+        ctx.count('gdb_items_compared', len(outs[False]))
+        if any('Got message' in x for x in outs[False]):
+            ctx.count('gdb_sessions_with_thread_warning')
+        # (GDB mode stamps messages with the wall clock: times and lifespans differ from run to run, they are blanked)
+        def blank(x):
+            return re.sub(r' after -?\d+\.\d{4}s', ' after LIFE', re.sub(r'^\s*-?\d+\.\d{4} ', 'TIME ', x))
+        # (and a gap separator appears when the machine happened to stall for a second between two events: dropped)
+        a = [blank(x) for x in outs[False] if outline.parse_line(x)['kind'] != 'sep']
+        b = [blank(outline.strip_sgr(x)) for x in outs[True] if outline.parse_line(outline.strip_sgr(x))['kind'] != 'sep']
+        case = {'gdb_lines': [x['line'] for x in st['entries']], 'stop': stop, 'threads': threads, 'commands': {str(k2): v for k2, v in cmds.items()}}
+        bad = next((x for x in a if '\x1b' in x), None)
+        if bad is not None:
+            ctx.violation('escape-when-off', '[GDB mode] colour off but an item contains ESC: %r' % bad[:200], case)
+        elif a != b:
+            j = next((j for j in range(min(len(a), len(b))) if a[j] != b[j]), min(len(a), len(b)))
+            ctx.violation('colour-changes-text', '[GDB mode] item %d: plain %r vs stripped coloured %r' % (j, a[j:j + 1], b[j:j + 1]), case)
+        elif any('\x1b' in x for x in outs[True]):
+            ctx.sig(['gdb', h64(case)])
+
+
 def run(ctx, spec):
+    if spec.get('mode') == 'gdb':
+        return run_gdb(ctx, spec)
     if spec.get('mode') == 'proc':
         return run_proc(ctx, spec)
     env.setup()
